@@ -60,8 +60,6 @@ def merge(ctx, sub, primary):
         ctx.stat("evaluations_in_secondary_builds", sub.stats.get("evaluations", 0))
     for k, v in sub.maxes.items():
         ctx.smax(k, v)
-    for s in sub.samples:
-        ctx.sample(s)
     for n in sub.notes:
         ctx.note(n)
 
@@ -94,6 +92,16 @@ def run_config(ctx, std, cxx, cref, primary):
         n += sub.stats.get("evaluations", 0)
         for c in sub.caps:
             ctx.cap("%s: %s" % (label, c))
+    if primary:
+        # evidence keeps 12 samples: one per table part in an order that shows every family (mixed element types and
+        # int flags first), preferring within a part the case that shows the family's point
+        by_part = dict((p, s.samples) for p, s in zip(PARTS, res) if s is not None)
+        for p in [11, 13, 12, 2, 17, 5, 14, 18, 16, 1, 3, 10] + PARTS:
+            ss = by_part.pop(p, None)
+            if not ss:
+                continue
+            best = [s for s in ss if "int-flag=2" in s or (11 <= p <= 16 and "-> present" in s)] or ss
+            ctx.sample(best[0])
     if skipped:
         ctx.cap("deadline: build '%s' did not run table parts %s" % (label, skipped))
     ctx.note("build %s: %d evaluations in %d of %d table parts" % (label, n, len(PARTS) - len(skipped), len(PARTS)))
@@ -106,26 +114,36 @@ def run(ctx):
             ctx.cap("deadline: build %s %s not started" % (cxx, std))
             continue
         run_config(ctx, std, cxx, cref, primary)
-    kinds = "plain P, value closure V (xoptional<T,bool> / xmasked_value<T,bool>), reference closure R (optional(x,flag) / masked_value(x,flag) on lvalues: <T&,bool&>)"
-    if ctx.tier == "thorough":
+    th = ctx.tier == "thorough"
+    kinds = ("plain P, value closure V (xoptional<T,bool> / xmasked_value<T,bool>), reference closure R (optional(x,flag) / masked_value(x,flag) on lvalues: <T&,bool&>), "
+             "int-flag value closure I (<T,int>), int-flag reference closure J (<T&,int&>)")
+    if th:
         kinds += ", const-reference closure C (<const T&,const bool&>)"
-    xi, xd = ((" + {-2,3,-7,255,INT_MAX-1,INT_MIN+1}", " + {-1,0.5,2,-inf,DBL_MIN,denorm_min}") if ctx.tier == "thorough" else ("", ""))
+    xi, xd = ((" + {-2,3,-7,255,INT_MAX-1,INT_MIN+1}", " + {-1,0.5,2,-inf,DBL_MIN,denorm_min}") if th else ("", ""))
     ctx.rule = (
         "case matrix generated from X-macro tables: {xoptional, xmasked_value} x {14 binary operators + - * / % & | ^ || && < <= > >=, == and !=, 4 unary operators + - ~ !, "
         "8 compound assignments, 36 lifted unary functions, 8 lifted binary functions, fma} (+ xoptional value_or const& / const&&, select) x operand-kind pattern "
-        "(every position one of: " + kinds + "; at least one non-plain; compound targets V or R) x element type (operators: int, double, Traced<int>; functions: double, Traced<double>, abs also int; "
-        "% & | ^ ~ and their compound forms only on int / Traced<int>) = one overload instance; for every instance ALL presence vectors of the non-plain operands x ALL value tuples over "
-        "V(int)={0,1,-1,2,7,INT_MAX,INT_MIN}" + xi + ", V(double)={0,-0,1,-2.5,DBL_MAX,inf,NaN}" + xd + ", select condition {false,true}. "
-        "Each case executes the real overload once and is judged: result present <=> all optional operands present; present value == same builtin operation on the underlying values "
-        "(NaN~NaN, signed zero distinguished); missing result => Traced call counter == 0 (not for unary operators; ==/!= judged by truth table only); compound: flag = and, value updated only if "
-        "still present, otherwise target value unchanged, returns its target; ==: missing==missing, missing!=present/plain, != exact negation; select: missing iff condition missing else the chosen "
-        "branch (presence and value) unchanged; value_or; operands never modified; no ASan report. builtin-int cases whose evaluation would be undefined (x/0, x%0, INT_MIN/-1, overflow) with a "
-        "missing operand run in a forked child: death by signal = violation. evaluations = executed cases over all builds; distinct_nontrivial = distinct cases (primary build only) in which at "
-        "least one optional/masked operand is missing, i.e. the cases the presence logic decides")
+        "(every position one of: " + kinds + "; at least one non-plain; compound targets V R I J; a pattern is in the table when its kinds lie in one of the sets "
+        + ("{P,V,R,C}, {P,V,R,I,J}" if th else "{P,V,R}, {P,V,R,I,J} for one- and two-operand forms, {P,V,R}, {P,I,J} for fma and select; I J only on the counting element types, select and value_or")
+        + ") x element type(s) (same type: operators int, double, Traced<int>; functions double, Traced<double>, abs also int; % & | ^ ~ only on int / Traced<int>; "
+        "mixed types in one call, bool-flag kinds P V R: int<->double in both orders for + - * / || && < <= > >= == != += -= *= /= and the 8 binary functions, all 6 non-uniform {int,double}^3 for fma, "
+        "select branches int/double and double/int, int<->long long in both orders for % & | ^ and their compound forms) = one overload instance; for every instance ALL flag vectors "
+        "(bool flags {false,true}; int flags {0,1,2}, so 2-vs-1 whose bitwise and is 0 occurs in every pair) x ALL value tuples over "
+        "V(int)={0,1,-1,2,7,INT_MAX,INT_MIN}" + xi + ", V(double)={0,-0,1,-2.5,DBL_MAX,inf,NaN}" + xd + ", mixed-type calls: int {0,2,-3,7,INT_MAX}"
+        + ("+{1,-1,INT_MIN}" if th else "") + ", double {0.5,2.5,-2.5,1e10,-0}" + ("+{3,1e300,inf,NaN}" if th else "") + ", long long {0,3,-5,2^40+1,-2^40}" + ("+{-1,255,2^62}" if th else "")
+        + ", select condition {false,true}. "
+        "Each case executes the real overload once and is judged: an operand is present iff its flag converts to true; result present <=> all optional operands present; present value == the builtin "
+        "operation on the underlying builtin values with the usual arithmetic conversions (= their common type; NaN~NaN, signed zero distinguished); missing result => Traced call counter == 0 "
+        "(not for unary operators; ==/!= judged by truth table only); compound: flag truthy iff both truthy, value updated only if still present (builtin a OP= b, i.e. converted back to the target type), "
+        "otherwise target value unchanged, returns its target; ==: missing==missing, missing!=present/plain, != exact negation; select: missing iff condition missing else the chosen "
+        "branch (presence, and value converted exactly to the common type) unchanged; value_or; operands and their flags never modified; no ASan report. builtin-int cases whose evaluation would be "
+        "undefined (x/0, x%0, INT_MIN/-1, overflow) with a missing operand run in a forked child: death by signal = violation. evaluations = executed cases over all builds; distinct_nontrivial = "
+        "distinct cases (primary build only) in which at least one optional/masked operand is missing, i.e. the cases the presence logic decides")
     ctx.assumptions += [
         "the reference semantics is the statement's lifted rule evaluated with the builtin operator / libm function on the underlying values in the same process (libm and the compiler's integer arithmetic are trusted)",
         "cases in which every operand is present and the underlying builtin operation is undefined (int overflow, /0, %0, INT_MIN/-1, -INT_MIN, abs(INT_MIN)) are skipped and counted; for unary operators (exempt from non-evaluation) such values are skipped for missing operands too",
-        "operands of one call share one element type; plain operands have the element type itself; xoptional is not mixed with xmasked_value (the overloads exclude it)",
+        "mixed element types are int/double (and int/long long for the integer-only operators) with bool-flag value and reference closures; non-evaluation is judged on the same-type Traced instances (the overloads are the same templates); xoptional is not mixed with xmasked_value (the overloads exclude it)",
+        "flag types are bool and int (values 0,1,2); for a compound assignment only the truthiness of the target flag afterwards is judged, not its numeric value; mixed int/double compound cases whose result does not fit the int target are skipped as undefined",
         "Traced<B> is made an xtl 'fundamental' type by specialising xtl::is_fundamental in the harness, the same customisation the library uses for half_float",
         "non-evaluation is judged by call counters of Traced operands; for ==/!= the library compares the stored values of a missing and a present operand (harmless, observable only with a counting type): reported as a statistic, not judged, because the statement gives == its own truth-table clause",
         "xmasked_value operator= and operator value_type(), stream output, swap and the xoptional converting constructors are outside the statement and not judged here",
